@@ -30,7 +30,16 @@ type relWithPayload struct {
 	A, B int64
 }
 
-var specialTypes = []reflect.Type{reflect.TypeFor[notRelNamed](), reflect.TypeFor[notRelSecond](), reflect.TypeFor[notRelOtherType](), reflect.TypeFor[relWithPayload]()}
+// unusually large component types (row strides beyond 1 KiB, 4 KiB and 64 KiB, also an exact multiple of 64 KiB)
+type huge1K struct{ V [1031]int8 }
+type huge4K struct{ V [513]int64 }
+type huge64K struct{ V [65536]int8 }
+type huge72K struct{ V [96][96]float64 }
+
+var specialTypes = []reflect.Type{reflect.TypeFor[notRelNamed](), reflect.TypeFor[notRelSecond](), reflect.TypeFor[notRelOtherType](), reflect.TypeFor[relWithPayload](),
+	reflect.TypeFor[huge1K](), reflect.TypeFor[huge4K](), reflect.TypeFor[huge64K](), reflect.TypeFor[huge72K]()}
+
+const firstHuge = 4 // index of the first huge type in specialTypes
 
 func regType(i int) reflect.Type {
 	if i < comps.N {
@@ -557,7 +566,18 @@ func testRegistry(rt *rapid.T, st *RunStats) {
 					cand = append(cand, uint8(b))
 				}
 			}
+			// the huge types, when registered (a drawn one of them is always used)
+			var hugeIDs []uint8
+			for k := firstHuge; k < len(specialTypes); k++ {
+				if id, ok := m.ids[comps.N+k]; ok {
+					hugeIDs = append(hugeIDs, id)
+				}
+			}
 			set := map[uint8]bool{hi: true}
+			if len(hugeIDs) > 0 && rapid.IntRange(0, 3).Draw(t, "useHuge") == 0 {
+				set[rapid.SampledFrom(hugeIDs).Draw(t, "hugeID")] = true
+				cls["used-component-larger-than-1KiB"] = true
+			}
 			for i := 0; i < 4; i++ {
 				set[rapid.SampledFrom(cand).Draw(t, "useID")] = true
 			}
